@@ -101,6 +101,22 @@ CLAIMS = {
         technique="static analysis: exhaustive finite-domain abstract evaluation of configuration/dispatch/gating code (ast)",
         ref="DESIGN.md §3 C20",
     ),
+    "C14": dict(
+        text=(
+            "Decides the accessor geometry of C14 against an independent lattice model (h(r,c) joins points (r,c)-(r,c+1), "
+            "v(r,c) joins (r,c)-(r+1,c)): (ALG-V) the guards of __getitem__, cell_neighbors, vertex_neighbors and "
+            "_from_grid_frame are affine comparisons with small integer coefficients plus parity tests, so behaviour is "
+            "piecewise affine in (coordinate, height, width); (ALG-1..5) each accessor is evaluated abstractly on symbolic "
+            "edge variables for all frame sizes 0..3 x 0..3 and all coordinates in a margin of 2 around the frame: the edge "
+            "returned / the IndexError raised must be exactly what the model gives; cell_neighbors = the 4 bounding edges, "
+            "vertex_neighbors = the incident edges, all_edges/iteration/dual iteration share one order, the lattice graph "
+            "attaches each variable to the segment it sits on, dual swaps the arrays, dual(dual) is the original frame, default "
+            "shapes agree, inner-frame borders land between the cells they separate."
+        ),
+        note="Trusted: the abstract evaluator; the small-model argument (affine guards with breakpoints within the evaluated margin).",
+        technique="static analysis: guard-vocabulary check + finite-domain abstract evaluation of the accessors against a lattice model (ast)",
+        ref="DESIGN.md §3 C14",
+    ),
 }
 
 NOT_APPLICABLE = {
